@@ -170,6 +170,39 @@ let fuel_int = ref 2_000_000
 let with_snap = ref true
 let with_inv = ref false
 
+(* Slots through whose object a top-level command reaches its operands (a<i>.<j>, wa<i>.<j>, n<i>).
+   The harness (and the model) reach such an object through a raw pointer without holding a handle;
+   safe Rust would keep it borrowed for the duration of the call.  If that object is destroyed by
+   a callback while the command runs (e.g. a finalizer drops the slot holding its last handle
+   during the collection started by the Cc::new inside Cleaner::register), the program is not
+   expressible in safe Rust and the real crate is driven through a dangling pointer: the run
+   prints ILLEGAL and the check discards the program. *)
+let holder_slots (c : cmd) : nat list =
+  let l = function LFA (i, _) -> [i] | _ -> [] in
+  let nd = function NSlot i -> [i] | NSelf -> [] in
+  match c with
+  (* only the commands in which the crate (or the harness) goes on using the operand after user
+     callbacks may have run: Cleaner::register after its Cc::new, and the store that follows
+     Cc::new / Cc::new_cyclic *)
+  | CNew (a, _) | CNewCyclic (a, _, _, _) -> l a
+  | CRegister (n, _, _) -> nd n
+  | _ -> []
+
+let rec nth_opt_nat (l : 'a list) (i : nat) : 'a option =
+  match l, i with
+  | [], _ -> None
+  | x :: _, O -> Some x
+  | _ :: r, S j -> nth_opt_nat r j
+
+let live_holders (m : machine) (c : cmd) : nat list =
+  List.filter_map (fun i ->
+      match nth_opt_nat m.slots i with
+      | Some (Some o) ->
+        (match nth_opt_nat m.heap o with
+         | Some x when x.o_vst = VLive && x.o_box = BAlloc -> Some o
+         | _ -> None)
+      | _ -> None) (holder_slots c)
+
 let run_one (p : parsed) idx =
   let prog = { p_classes = dense "class" p.classes; p_scripts = dense "script" p.scripts; p_main = p.main } in
   let fuel = nat_of_int !fuel_int in
@@ -181,7 +214,13 @@ let run_one (p : parsed) idx =
       if not !halted then begin
         Printf.printf "-- %d\n" k;
         let before = List.length !m.log in
+        let holders = live_holders !m c in
         m := exec_top p.conf prog fuel c !m;
+        List.iter (fun o ->
+            match nth_opt_nat !m.heap o with
+            | Some x when x.o_vst = VLive && x.o_box = BAlloc -> ()
+            | _ -> Printf.printf "ILLEGAL the object %s through which command %d reaches its operand was destroyed while the command ran\n" (oi o) k)
+          holders;
         let evs = !m.log in
         let fresh = List.filteri (fun i _ -> i < List.length evs - before) evs in
         List.iter (fun e ->
